@@ -87,6 +87,12 @@ class Report:
         for rid in self.order:
             r = self.rules[rid]
             print("%s %s %s: %d instances examined (%d distinct non-trivial)" % (self.pid, rid, r["desc"], r["examined"], r["nontrivial"]))
+        if os.environ.get("VERIF_DUMP_KEYS"):
+            os.makedirs(os.environ["VERIF_DUMP_KEYS"], exist_ok=True)
+            with open(os.path.join(os.environ["VERIF_DUMP_KEYS"], self.pid + ".keys"), "w") as kf:
+                for rid in self.order:
+                    for k in sorted(self.rules[rid]["keys"]):
+                        kf.write("%s\t%s\n" % (rid, k))
         vdir = os.path.join(VERIF, "out", "violations")
         rc = 0
         if new:
